@@ -9,8 +9,12 @@
 EXTENDS Integers, Sequences, TLC
 
 FLeafOps == {"LIT","WILD","REGEXP"}
-\* what serialize() hands to a leaf's function for the raw value (values in this family contain no quotes)
-Ser(leaf) == CASE leaf.ty = "str" -> "'" \o leaf.v \o "'"
+\* what serialize() hands to a leaf's function for the raw value (column names with a double quote or empty ones make serialize
+\* itself fail: those trees are C02's subject and are left out by the recorder)
+Ch(s, i) == SubSeq(s, i, i)
+RECURSIVE Doubled(_)
+Doubled(s) == IF s = "" THEN "" ELSE (IF Ch(s, 1) = "'" THEN "''" ELSE Ch(s, 1)) \o Doubled(Tail(s))     \* base.go: every ' doubled
+Ser(leaf) == CASE leaf.ty = "str" -> "'" \o Doubled(leaf.v) \o "'"
                [] leaf.ty = "col" -> "\"" \o leaf.v \o "\""
                [] OTHER -> leaf.v
 \* (the label BLANK stands for a function that renders its node to the empty text: a driver that drops the operator)
